@@ -1880,7 +1880,7 @@ type Property struct {
 func (n Property) String() string {
 	s := ""
 	if n.Name != nil {
-		if v, ok := n.Value.(*Var); !ok || !n.Name.IsIdent(v.Data) {
+		if v, ok := n.Value.(*Var); !ok || !n.Name.IsIdent(v.Name()) {
 			s += n.Name.String() + ": "
 		}
 	} else if n.Spread {
@@ -1896,7 +1896,7 @@ func (n Property) String() string {
 // JS writes JavaScript to writer.
 func (n Property) JS(w io.Writer) {
 	if n.Name != nil {
-		if v, ok := n.Value.(*Var); !ok || !n.Name.IsIdent(v.Data) {
+		if v, ok := n.Value.(*Var); !ok || !n.Name.IsIdent(v.Name()) {
 			n.Name.JS(w)
 			w.Write([]byte(": "))
 		}
